@@ -2,6 +2,7 @@ package main
 
 import (
 	"fmt"
+	"go/token"
 	"go/types"
 	"strings"
 
@@ -592,6 +593,37 @@ func runC01HashArms(c *Ctx) {
 		if nTerms == 0 {
 			L.Undecided("R-C01-HASHARMS", "z.KeyToHash#terms", "could not read the type set of the z.Key constraint", fn.Pos())
 		}
+		// every reflect-kind arm RETURNS for the keys the constraint admits: the only slice term is ~[]byte,
+		// so inside the Slice arm the element kind is Uint8; taking that as a fact (the edges on which the
+		// element-kind test fails are infeasible), no path from an arm's kind test leads to the panic
+		elemNot := edgesWhere(fn, tb, "eq(c["+kindConst("Uint8")+"],call[iface:Type.Kind](call[iface:Type.Elem](_)))", nil, false)
+		nArms, bad := 0, ""
+		var badPos token.Pos
+		for _, b := range fn.Blocks {
+			iff := lastIf(b)
+			if iff == nil {
+				continue
+			}
+			env := Env{}
+			pol := condPolarity(tb.T(iff.Cond), "eq(call[reflect.Value.Kind](_),?k)", env)
+			if pol == 0 || env["k"].Op != "c" {
+				continue
+			}
+			succ := 0
+			if pol < 0 {
+				succ = 1
+			}
+			nArms++
+			isKindTest := func(in ssa.Instruction) bool {
+				i2, ok := in.(*ssa.If)
+				return ok && i2 != iff && condPolarity(tb.T(i2.Cond), "eq(call[reflect.Value.Kind](_),?k)", Env{}) != 0
+			}
+			if hit, path := reach(Pos{b.Succs[succ], 0}, isPanic, func(in ssa.Instruction) bool { return isReturn(in) || isKindTest(in) }, cutSet(elemNot)); hit != nil {
+				bad = "the arm for reflect kind constant " + env["k"].Sym + " can reach the 'Key type not supported' panic (block path " + pathString(path) + ") for a key type the Key constraint admits"
+				badPos = instrPos(hit)
+			}
+		}
+		L.Check(bad == "" && nArms >= 9, "R-C01-HASHARMS", "z.KeyToHash#arm-returns", fmt.Sprintf("%d reflect-kind arms, each returns a hash pair for the key types of its kind (element kind of a slice key taken as Uint8, the only slice term of the constraint)", nArms), bad, badPos)
 	})
 }
 
